@@ -33,6 +33,27 @@ func (b *SyncBuffer) Snapshot() []string {
 	return append([]string(nil), b.Entries...)
 }
 
+// Messages reads the buffer as a stream of mails: how many Write calls a mailer needs for one
+// message is its own business, so the writes are joined and cut again where a message starts
+// (a "To: " header at the beginning of a line).
+func (b *SyncBuffer) Messages() []string {
+	all := strings.Join(b.Snapshot(), "")
+	var out []string
+	start := -1
+	for i := 0; i+4 <= len(all); i++ {
+		if all[i:i+4] == "To: " && (i == 0 || all[i-1] == '\n') {
+			if start >= 0 {
+				out = append(out, all[start:i])
+			}
+			start = i
+		}
+	}
+	if start >= 0 {
+		out = append(out, all[start:])
+	}
+	return out
+}
+
 // FakeSMTP is a minimal loopback SMTP server that records messages.
 type FakeSMTP struct {
 	ln   net.Listener
